@@ -55,6 +55,8 @@ use tracing::{debug, error, info, trace, warn};
 mod connectivity_state;
 mod ip_vote;
 mod query_info;
+#[cfg(feature = "verif-hooks")]
+pub(crate) use query_info::verif_findnode_log2distance;
 mod test;
 
 /// The number of distances (buckets) we simultaneously request from each peer.
